@@ -105,6 +105,39 @@ theorem C08_reopen_values (f f' : IntField) (h : Reach f.opts) (hr : f.reopen = 
   rw [C08_reopen f h] at hr
   cases hr; rfl
 
+/-! ### The TopN cache survives the restart -/
+
+theorem filterMap_cacheEntry_roundtrip (count : Nat → Nat) (l : List Nat) :
+    ((l.filterMap (cacheEntry count)).map (·.1)).filterMap (cacheEntry count) = l.filterMap (cacheEntry count) := by
+  induction l with
+  | nil => rfl
+  | cons x xs ih =>
+    by_cases h : count x > 0
+    · have e : cacheEntry count x = some (x, count x) := by simp [cacheEntry, h]
+      simp only [List.filterMap_cons, e, List.map_cons, ih]
+    · have e : cacheEntry count x = none := by simp [cacheEntry, h]
+      simp only [List.filterMap_cons, e, ih]
+
+/-- For every fragment of a cached set field whose rows fit the cache: the cache rebuilt by
+`openCache` from the ids `flushCache` wrote at close is the cache held before the restart, so
+`TopN` answers the same (this needs `close` to flush the cache whenever it holds rows — also when
+no operation was logged since the last snapshot). -/
+theorem C08_cache_roundtrip (d : SetData) (shard : Nat) : reopenCache d shard = fragCache d shard := by
+  simp only [reopenCache, openCache, flushCache, fragCache]
+  exact filterMap_cacheEntry_roundtrip _ _
+
+theorem C08_topN_reopen (d : SetData) (shards : List Nat) :
+    topN (shards.map (reopenCache d)) = topN (shards.map (fragCache d)) := by
+  congr 1
+  apply List.map_congr_left
+  intro s _
+  exact C08_cache_roundtrip d s
+
+/-- What a skipped flush does: with no `.cache` file the reopened cache is empty although the
+fragment holds the rows. -/
+theorem C08_unflushed_cache_witness :
+    openCache [] (SetData.count { bits := [(7, 1)] } 0) = [] ∧ fragCache { bits := [(7, 1)] } 0 = [(7, 1)] := by decide
+
 /-- What the v1-upgrade branch does to a meta file with bit depth 0 (the reason the current format
 must never write one): base becomes min and the depth covers max - min. -/
 theorem C08_v1_branch (pb : Meta) (h0 : pb.bitDepth = 0) :
